@@ -275,6 +275,11 @@ def closure(pc):
     for c in pc:
         if c[0] == "match":
             known.append((("matches", c[1], c[2]), bool(c[3])))
+    return propagate(known)
+
+
+def propagate(known):
+    known = list(known)
     changed = True
     n = 0
     while changed and n < 10:
@@ -728,10 +733,10 @@ def escapes(s, tree):
 
 def check_validator_placement(prog, rep, eng, roots):
     veng = terms.Engine(prog, inline=True, hooks=E.Hooks(["model_checking::"]))
-    for name, extended in (("parse_and_validate", False), ("parse_and_validate_extended", True)):
-        f = prog.lib_fn("model_checking::" + name)
+    vplain, vext = pipelines.validators(prog)
+    for name, extended, f in (("parse_and_validate", False, vplain), ("parse_and_validate_extended", True, vext)):
         if f is None:
-            rep.unresolved("C14-R2", name, "", "function not found")
+            rep.unresolved("C14-R2", name, "", "no function of the driver module calls the " + ("extended" if extended else "plain") + " parser + preprocessing")
             continue
         rep.functions.add(f.qual)
         s = veng.summary(f)
@@ -760,6 +765,7 @@ def check_validator_placement(prog, rep, eng, roots):
             and strip_clone(t[2][1]) == tree          # noqa: E731
         val = lambda t: q.is_ok_test(t) is not None and q.is_ok_test(t)[0] == "call" and q.is_ok_test(t)[1].endswith("validate_and_divide_wild_cards") \
             and strip_clone(q.is_ok_test(t)[2][0]) == tree and q.is_ok_test(t)[2][1] == ("param", pn[2])          # noqa: E731
+        esc = [(w_, v_, propagate(q.conds([("if", t, pol) for t, pol in conds]))) for w_, v_, conds in esc]
         good_sup = bool(esc) and all(any(pol and sup(t) for t, pol in conds) for _, _, conds in esc)
         rep.check(good_sup, "C14-R2", f"{name}/support", where, "each tree reaches the result only if the graph supports its variables",
                   "a tree can reach the result without check_hctl_var_support(graph, that tree) having returned true (evaluation would panic in mk_var_by_name / get(index).unwrap())")
@@ -767,11 +773,12 @@ def check_validator_placement(prog, rep, eng, roots):
             good_val = bool(esc) and all(any(pol and val(t) for t, pol in conds) for _, _, conds in esc)
             rep.check(good_val, "C14-R2", f"{name}/context", where, "each tree is validated against the context before it reaches the result, errors propagated",
                       "a tree can reach the result without validate_and_divide_wild_cards(that tree, context) having succeeded")
-    deng = pipelines.driver_engine(prog, extra_opaque=["model_checking::parse_and_validate", "model_checking::parse_and_validate_extended"])
+    vnames = [f.path for f in (vplain, vext) if f is not None]
+    deng = pipelines.driver_engine(prog, extra_opaque=vnames)
     for ep in roots:
         sm = deng.summary(ep)
         evs = pipelines.eval_sites(sm)
-        pv = [x for x in sm.all_sites() if x.kind == "call" and x.is_call_to("parse_and_validate", "parse_and_validate_extended")]
+        pv = [x for x in sm.all_sites() if x.kind == "call" and isinstance(x.callee, str) and prog.resolve_local(ep.crate, x.callee) in (vplain, vext)]
         good = bool(evs) and len(pv) == 1
         why = f"{len(evs)} eval_node sites, {len(pv)} validator calls"
         if good:
